@@ -215,7 +215,7 @@ def run_mock(rec, rnd, case, cycles):
 
 
 def shards(tier, seed):
-    n = 48 if tier == "quick" else 1600
+    n = 48 if tier == "quick" else 9600
     per = 3 if tier == "quick" else 20
     return [{"seed": seed, "first": i, "n": per, "tier": tier} for i in range(0, n, per)]
 
